@@ -129,7 +129,7 @@ def correspond(ctx):
     r["failing"] = list(r["failing"]) + [-1] * bad_runs
     r["n"] = len(obs)
     nontrivial = [tuple(l[0] for l in o["labels"]) for o in obs if o.get("labels") and
-                  any(l[0].startswith("AClose") for l in o["labels"])]
+                  any(l[0].startswith("AClose ") for l in o["labels"])]
     by_client, by_cb, by_shape, kinds = {}, {}, {}, {}
     nlabels = 0
     phase = {}
@@ -141,7 +141,7 @@ def correspond(ctx):
         nlabels += len(labs)
         # what the client was doing when close() ran: the label just before AClose
         for j, l in enumerate(labs):
-            if l[0].startswith("AClose"):
+            if l[0].startswith("AClose "):
                 prev = labs[j - 1][0].split()[0] if j else "<start>"
                 phase[prev] = phase.get(prev, 0) + 1
         for l in labs:
